@@ -31,7 +31,9 @@ ACTIVE_EXCLUSIONS = {
     'C13-setAttributeNode-self',
     'C13-setAttributeNodeNS-self-inuse',
     'C13-setAttributeNS-keeps-prefix',
+    'C13-setAttributeNS-prefixed-lookup',
     'C13-document-fragment-partial-insert',
+    'C13-clone-firstchild-flag',
 }
 _no = os.environ.get('VERIF_C13_NOEXCL', '')
 if _no == 'all': ACTIVE_EXCLUSIONS = set()
